@@ -8,15 +8,18 @@ deletions, net-asset-value writes, direct `RemoveSession` calls), ALL identifier
 record-name hash function `H` (no property of sha256 is assumed; names that collide under `H`
 are covered).  A rejected operation leaves the state unchanged (transaction rollback).
 
-What is FALSE of the code as it is: "every session belongs to an existing scope" and "deleting a
-scope removes all of its sessions".  `RemoveScope` (x/metadata/keeper/scope.go:169-198) walks only
-the scope's RECORDS and relies on `RemoveRecord` to drop each session with its last record, so a
-session that never had a record survives `DeleteScope` (`deleteScope_leaves_recordless_session`,
-`sessions_have_scope_false`; replayed on the real keeper, known finding
-`C14-recordless-session-survives-scope-delete`).  Everything else the property claims is proved
-for the code as it is (`…_partial` theorems), and the full claim is proved for the one-line
-repair `removeScopeFixed` (`…_with_fix` theorems).  The address half of the property is in
-`PvProofs/C14Addr.lean`.
+The model is the CURRENT code, i.e. with the repair ab8bb51a7 ("fix: RemoveScope left sessions
+that never had a record"): `RemoveScope` removes the scope's remaining sessions after the record
+walk.  The full claim — sessions and records always belong to an existing scope, records to an
+existing session, all lookups exact, `DeleteScope` leaves nothing — is proved at full strength
+(`refInv_run`, `refInv_reachable`, `deleteScope_removes_everything`).
+
+HISTORICAL: before ab8bb51a7 `RemoveScope` (x/metadata/keeper/scope.go:169-198 at d172e538b)
+walked only the scope's RECORDS and relied on `RemoveRecord` to drop each session with its last
+record, so a session that never had a record survived `DeleteScope`.  The `…_before_fix`
+theorems are the negation witnesses about that code (`removeScopePreFix` / `runPreFix`); they are
+what the finding `C14-recordless-session-survives-scope-delete` (now fixed) replayed on the real
+keeper.  The address half of the property is in `PvProofs/C14Addr.lean`.
 -/
 import PvProofs.Lemmas.MdStoreMsgs
 
@@ -25,47 +28,45 @@ open PvModel.MdStore PvProofs.MdLemmas
 
 /-! ### the invariant over all histories -/
 
-theorem inv_empty : PvModel.MdStore.Inv State.empty := by
-  refine ⟨?_, ?_, ?_, ?_, ?_, ?_, ?_, ?_, ?_, ?_, ?_⟩ <;>
+theorem inv_empty : FullInv State.empty := by
+  refine ⟨⟨?_, ?_, ?_, ?_, ?_, ?_, ?_, ?_, ?_, ?_, ?_⟩, ?_⟩ <;>
     simp [State.empty, KeysUnique, RecordsHaveSession, RecordsHaveScope, RecordsInSessionScope,
       AddrScopeExact, SpecScopeExact, OwnerScopeSpecExact, CSpecScopeSpecExact, OwnerCSpecExact,
-      ValueOwnersHaveScope, NavsHaveScope, IdxExact]
+      ValueOwnersHaveScope, NavsHaveScope, IdxExact, SessionsHaveScope]
 
-/-- the code's `DeleteScope` preserves the invariant -/
-theorem removeScope_ok (st : State) (id : UUID) (sc : Scope) (h : PvModel.MdStore.Inv st)
+/-- `DeleteScope` (RemoveScope + RemoveNetAssetValues) preserves the full invariant -/
+theorem removeScope_ok (st : State) (id : UUID) (sc : Scope) (h : FullInv st)
     (hsc : kget (·.id) st.scopes id = some sc) :
-    PvModel.MdStore.Inv (removeNetAssetValues (removeScope st id) id) :=
-  (deleteScope_spec h id sc hsc).1
+    FullInv (removeNetAssetValues (removeScope st id) id) :=
+  ⟨(deleteScope_spec h.1 id sc hsc).1, (deleteScope_spec h.1 id sc hsc).2.2 h.2⟩
 
-/-- one operation (accepted or rejected) of the code as it is keeps the invariant -/
-theorem inv_step (H : String → NameKey) (st : State) (op : Op) (h : PvModel.MdStore.Inv st) :
-    PvModel.MdStore.Inv (stepWith removeScope H st op) := by
+/-- one operation (accepted or rejected) keeps the full invariant -/
+theorem inv_step (H : String → NameKey) (st : State) (op : Op) (h : FullInv st) :
+    FullInv (stepWith removeScope H st op) := by
   unfold stepWith
   split
   · rename_i st' hr
-    exact applyOpWith_inv removeScope removeScope_ok H h op hr
+    exact ⟨applyOpWith_inv removeScope (fun st id sc hi hsc => (deleteScope_spec hi id sc hsc).1) H h.1 op hr,
+      applyOpWith_shs removeScope (fun st id sc hi hs hsc => (deleteScope_spec hi id sc hsc).2.2 hs) H h.1 h.2 op hr⟩
   · exact h
 
-/-- PARTIAL (full statement: `FullInv (run H State.empty ops)`, which is false, see
-`sessions_have_scope_false`).  After EVERY history on the code as it is: store keys are unique,
-every record's session exists, every record's scope exists, a record's session lies in the
-record's scope, each of the five lookups lists exactly the (value, id) pairs the stored scopes /
-specifications name, value-owner coins and net asset values exist only for existing scopes.
-Missing from the full claim: sessions that hold no record may outlive their scope. -/
-theorem refInv_run_partial (H : String → NameKey) (st : State) (ops : List Op)
-    (h : PvModel.MdStore.Inv st) : PvModel.MdStore.Inv (run H st ops) := by
+/-- After EVERY history, from any state that satisfies it: store keys are unique; every session
+and every record belongs to an existing scope; every record belongs to an existing session of
+its own scope; each of the five lookups lists exactly the (value, id) pairs the stored scopes /
+specifications name; value-owner coins and net asset values exist only for existing scopes. -/
+theorem refInv_run (H : String → NameKey) (st : State) (ops : List Op) (h : FullInv st) :
+    FullInv (run H st ops) := by
   unfold run runWith
   induction ops generalizing st with
   | nil => exact h
   | cons op t ih => exact ih _ (inv_step H st op h)
 
 /-- the same from the empty store: every reachable state -/
-theorem refInv_reachable_partial (H : String → NameKey) (ops : List Op) :
-    PvModel.MdStore.Inv (run H State.empty ops) :=
-  refInv_run_partial H State.empty ops inv_empty
+theorem refInv_reachable (H : String → NameKey) (ops : List Op) : FullInv (run H State.empty ops) :=
+  refInv_run H State.empty ops inv_empty
 
-/-- The history that breaks the full claim: write a scope and a session, never a record, delete
-the scope. -/
+/-- The history that broke the claim before the repair: write a scope and a session, never a
+record, delete the scope. -/
 def orphanWitness : List Op := [
   .writeContractSpec { id := "c1", owners := ["A"] },
   .writeScopeSpec { id := "p1", owners := ["A"], cspecs := ["c1"] },
@@ -73,39 +74,21 @@ def orphanWitness : List Op := [
   .writeSession { id := ⟨"s1", "x1"⟩, spec := "c1", parties := ["A"], name := "sess" },
   .deleteScope "s1" ]
 
-/-- NEGATION WITNESS: on the code as it is, "sessions always belong to an existing scope" fails
-after `orphanWitness` (every operation of which is accepted). -/
-theorem sessions_have_scope_false : ¬ SessionsHaveScope (run id State.empty orphanWitness) := by
+/-- HISTORICAL NEGATION WITNESS (code before ab8bb51a7): "sessions always belong to an existing
+scope" failed after `orphanWitness` (every operation of which is accepted). -/
+theorem sessions_have_scope_false_before_fix :
+    ¬ SessionsHaveScope (runPreFix id State.empty orphanWitness) := by
   decide
 
-/-- each operation of the witness history is accepted (the witness is not vacuous) -/
+/-- each operation of the witness history is accepted (the witness is not vacuous), and on the
+current code the same history leaves no session -/
 theorem orphanWitness_all_accepted :
-    (run id State.empty orphanWitness).sessions.map (·.id) = [⟨"s1", "x1"⟩] ∧
-    (run id State.empty orphanWitness).scopes = [] ∧
-    (run id State.empty (orphanWitness.take 4)).scopes.map (·.id) = ["s1"] := by
+    (runPreFix id State.empty orphanWitness).sessions.map (·.id) = [⟨"s1", "x1"⟩] ∧
+    (runPreFix id State.empty orphanWitness).scopes = [] ∧
+    (runPreFix id State.empty (orphanWitness.take 4)).scopes.map (·.id) = ["s1"] ∧
+    (run id State.empty orphanWitness).sessions = [] ∧
+    (run id State.empty (orphanWitness.take 4)).sessions.map (·.id) = [⟨"s1", "x1"⟩] := by
   decide
-
-/-- the repaired `DeleteScope` preserves the invariant and "sessions have a scope" -/
-theorem inv_step_with_fix (H : String → NameKey) (st : State) (op : Op) (h : FullInv st) :
-    FullInv (stepWith removeScopeFixed H st op) := by
-  unfold stepWith
-  split
-  · rename_i st' hr
-    exact ⟨applyOpWith_inv removeScopeFixed (fun st id sc hi hsc => (deleteScopeFixed_spec hi id sc hsc).1) H h.1 op hr,
-      applyOpWith_shs removeScopeFixed (fun st id sc hi hs hsc => (deleteScopeFixed_spec hi id sc hsc).2.2 hs) H h.1 h.2 op hr⟩
-  · exact h
-
-/-- FULL CLAIM, WITH THE PROPOSED FIX: after every history in which `RemoveScope` also removes
-the scope's sessions, sessions and records always belong to an existing scope, records to an
-existing session, and all lookups are exact. -/
-theorem refInv_run_with_fix (H : String → NameKey) (ops : List Op) :
-    FullInv (runWith removeScopeFixed H State.empty ops) := by
-  have : ∀ st, FullInv st → FullInv (runWith removeScopeFixed H st ops) := by
-    unfold runWith
-    induction ops with
-    | nil => exact fun _ h => h
-    | cons op t ih => exact fun st h => ih _ (inv_step_with_fix H st op h)
-  exact this _ ⟨inv_empty, by simp [SessionsHaveScope, State.empty]⟩
 
 /-! ### what the invariant says, in the property's words -/
 
@@ -115,25 +98,21 @@ theorem record_has_session_and_scope (H : String → NameKey) (ops : List Op) :
       (∃ x ∈ (run H State.empty ops).sessions, x.id = r.session ∧ x.id.scope = r.id.scope) ∧
       (∃ sc ∈ (run H State.empty ops).scopes, sc.id = r.id.scope) := by
   intro r hr
-  have h := refInv_reachable_partial H ops
+  have h := (refInv_reachable H ops).1
   obtain ⟨x, hx, hxr⟩ := h.recSession r hr
   exact ⟨⟨x, hx, hxr, by rw [hxr]; exact h.recInScope r hr⟩, h.recScope r hr⟩
 
-/-- PARTIAL form of "sessions always belong to an existing scope": it holds for every session
-that holds at least one record. -/
-theorem used_session_has_scope_partial (H : String → NameKey) (ops : List Op) :
-    UsedSessionsHaveScope (run H State.empty ops) := by
-  intro x _ ⟨r, hr, hrx⟩
-  have h := refInv_reachable_partial H ops
-  obtain ⟨sc, hsc, e⟩ := h.recScope r hr
-  exact ⟨sc, hsc, by rw [e, ← h.recInScope r hr, hrx]⟩
+/-- Sessions always belong to an existing scope, after every history. -/
+theorem session_has_scope (H : String → NameKey) (ops : List Op) :
+    ∀ x ∈ (run H State.empty ops).sessions, ∃ sc ∈ (run H State.empty ops).scopes, sc.id = x.id.scope :=
+  (refInv_reachable H ops).2
 
 /-- The by-address lookup lists exactly the scopes whose stored owners or data-access list name
 the address. -/
 theorem scopesForAddress_exact (H : String → NameKey) (ops : List Op) (a : Addr) (id : UUID) :
     id ∈ scopesForAddress (run H State.empty ops) a ↔
       ∃ sc ∈ (run H State.empty ops).scopes, sc.id = id ∧ (a ∈ sc.owners ∨ a ∈ sc.dataAccess) := by
-  have h := idxExact_iff.mp (refInv_reachable_partial H ops).addrScope a id
+  have h := idxExact_iff.mp ((refInv_reachable H ops).1).addrScope a id
   simp only [scopesForAddress, List.mem_map, List.mem_filter, decide_eq_true_eq, Prod.exists]
   constructor
   · rintro ⟨a', id', ⟨hm, rfl⟩, rfl⟩
@@ -145,7 +124,7 @@ theorem scopesForAddress_exact (H : String → NameKey) (ops : List Op) (a : Add
 theorem scopesForScopeSpec_exact (H : String → NameKey) (ops : List Op) (sp : UUID) (id : UUID) :
     id ∈ scopesForScopeSpec (run H State.empty ops) sp ↔
       ∃ sc ∈ (run H State.empty ops).scopes, sc.id = id ∧ sc.spec = sp := by
-  have h := idxExact_iff.mp (refInv_reachable_partial H ops).specScope sp id
+  have h := idxExact_iff.mp ((refInv_reachable H ops).1).specScope sp id
   simp only [scopesForScopeSpec, List.mem_map, List.mem_filter, decide_eq_true_eq, Prod.exists]
   constructor
   · rintro ⟨a', id', ⟨hm, rfl⟩, rfl⟩
@@ -158,7 +137,7 @@ theorem scopesForScopeSpec_exact (H : String → NameKey) (ops : List Op) (sp : 
 theorem scopeSpecsForOwner_exact (H : String → NameKey) (ops : List Op) (a : Addr) (id : UUID) :
     id ∈ scopeSpecsForOwner (run H State.empty ops) a ↔
       ∃ sp ∈ (run H State.empty ops).scopeSpecs, sp.id = id ∧ a ∈ sp.owners := by
-  have h := idxExact_iff.mp (refInv_reachable_partial H ops).ownerScopeSpec a id
+  have h := idxExact_iff.mp ((refInv_reachable H ops).1).ownerScopeSpec a id
   simp only [scopeSpecsForOwner, List.mem_map, List.mem_filter, decide_eq_true_eq, Prod.exists]
   constructor
   · rintro ⟨a', id', ⟨hm, rfl⟩, rfl⟩
@@ -171,7 +150,7 @@ contract-specification list contains it. -/
 theorem scopeSpecsForContractSpec_exact (H : String → NameKey) (ops : List Op) (c : UUID) (id : UUID) :
     id ∈ scopeSpecsForContractSpec (run H State.empty ops) c ↔
       ∃ sp ∈ (run H State.empty ops).scopeSpecs, sp.id = id ∧ c ∈ sp.cspecs := by
-  have h := idxExact_iff.mp (refInv_reachable_partial H ops).cspecScopeSpec c id
+  have h := idxExact_iff.mp ((refInv_reachable H ops).1).cspecScopeSpec c id
   simp only [scopeSpecsForContractSpec, List.mem_map, List.mem_filter, decide_eq_true_eq, Prod.exists]
   constructor
   · rintro ⟨a', id', ⟨hm, rfl⟩, rfl⟩
@@ -184,7 +163,7 @@ address. -/
 theorem contractSpecsForOwner_exact (H : String → NameKey) (ops : List Op) (a : Addr) (id : UUID) :
     id ∈ contractSpecsForOwner (run H State.empty ops) a ↔
       ∃ sp ∈ (run H State.empty ops).contractSpecs, sp.id = id ∧ a ∈ sp.owners := by
-  have h := idxExact_iff.mp (refInv_reachable_partial H ops).ownerCSpec a id
+  have h := idxExact_iff.mp ((refInv_reachable H ops).1).ownerCSpec a id
   simp only [contractSpecsForOwner, List.mem_map, List.mem_filter, decide_eq_true_eq, Prod.exists]
   constructor
   · rintro ⟨a', id', ⟨hm, rfl⟩, rfl⟩
@@ -198,7 +177,7 @@ theorem scopesForValueOwner_sound (H : String → NameKey) (ops : List Op) (a b 
     (ha : id ∈ scopesForValueOwner (run H State.empty ops) a) :
     (∃ sc ∈ (run H State.empty ops).scopes, sc.id = id) ∧
     (id ∈ scopesForValueOwner (run H State.empty ops) b → a = b) := by
-  have h := refInv_reachable_partial H ops
+  have h := (refInv_reachable H ops).1
   simp only [scopesForValueOwner, List.mem_map, List.mem_filter, decide_eq_true_eq] at ha ⊢
   obtain ⟨p, ⟨hp, rfl⟩, rfl⟩ := ha
   refine ⟨h.voScope p hp, ?_⟩
@@ -292,14 +271,10 @@ theorem record_move_removes_emptied_session (H : String → NameKey) (st st' : S
 
 /-! ### deleting a scope removes all of its sessions, records, lookups and net asset values -/
 
-/-- PARTIAL (full statement: `ScopeGone st' id`, false — `deleteScope_leaves_recordless_session`).
-`DeleteScope` on the code as it is removes the scope, all of its records, both lookup entries,
-its value-owner coin and its net asset values, and every session of the scope that held a record.
-Missing: sessions of the scope that held no record. -/
-theorem deleteScope_removes_everything_partial (st st' : State) (id : UUID) (h : PvModel.MdStore.Inv st)
-    (hr : deleteScope st id = .ok st') :
-    ScopeGoneExceptSessions st' id ∧
-    (∀ x ∈ st'.sessions, x.id.scope = id → ∀ r ∈ st.records, r.session ≠ x.id) := by
+/-- `DeleteScope` leaves nothing of the scope: no scope entry, no session, no record, no entry in
+the by-address and by-specification lookups, no value-owner coin, no net asset value. -/
+theorem deleteScope_removes_everything (st st' : State) (id : UUID) (h : PvModel.MdStore.Inv st)
+    (hr : deleteScope st id = .ok st') : ScopeGone st' id := by
   simp only [deleteScope, deleteScopeWith] at hr
   split at hr
   · cases hr
@@ -307,32 +282,15 @@ theorem deleteScope_removes_everything_partial (st st' : State) (id : UUID) (h :
     cases hr
     have hk' : khas (fun x : Scope => x.id) st.scopes id = true := by simpa using hk
     obtain ⟨sc, hsc⟩ := Option.isSome_iff_exists.mp (kget_isSome_iff.mpr (khas_iff.mp hk'))
-    obtain ⟨hinv, hgone, hsess, hrec, _⟩ := deleteScope_spec h id sc hsc
-    refine ⟨hgone, ?_⟩
-    intro x hx hxs r hr e
-    -- r is a record of scope `id`, so the walk removed it and then its session
-    have w := afterWalk_spec h id
-    have hrs : r.id.scope = id := by rw [← h.recInScope r hr, e]; exact hxs
-    -- after the walk the invariant holds and x is still a session; consider the walk's removal of r
-    have hx' : x ∈ (afterWalk st id).sessions := by rw [← hsess]; exact hx
-    -- the session x would have to be removed by `removeRecord` of its last record; we show x ∉ sessions
-    exact afterWalk_session_gone h id r hr hrs x hx' e.symm
+    exact (deleteScope_spec h id sc hsc).2.1
 
-/-- NEGATION WITNESS: after `DeleteScope s1` in `orphanWitness` a session of `s1` is still stored. -/
-theorem deleteScope_leaves_recordless_session :
-    ¬ ScopeGone (run id State.empty orphanWitness) "s1" := by decide
+/-- HISTORICAL NEGATION WITNESS (code before ab8bb51a7): after `DeleteScope s1` in
+`orphanWitness` a session of `s1` was still stored. -/
+theorem deleteScope_leaves_recordless_session_before_fix :
+    ¬ ScopeGone (runPreFix id State.empty orphanWitness) "s1" := by decide
 
-/-- FULL CLAIM, WITH THE PROPOSED FIX: `DeleteScope` leaves nothing of the scope. -/
-theorem deleteScope_removes_everything_with_fix (st st' : State) (id : UUID) (h : PvModel.MdStore.Inv st)
-    (hr : deleteScopeWith removeScopeFixed st id = .ok st') : ScopeGone st' id := by
-  simp only [deleteScopeWith] at hr
-  split at hr
-  · cases hr
-  · rename_i hk
-    cases hr
-    have hk' : khas (fun x : Scope => x.id) st.scopes id = true := by simpa using hk
-    obtain ⟨sc, hsc⟩ := Option.isSome_iff_exists.mp (kget_isSome_iff.mpr (khas_iff.mp hk'))
-    exact (deleteScopeFixed_spec h id sc hsc).2.1
+/-- on the current code the same history leaves nothing of `s1` -/
+theorem orphanWitness_scope_gone : ScopeGone (run id State.empty orphanWitness) "s1" := by decide
 
 /-- a rejected operation changes nothing -/
 theorem rejected_op_changes_nothing (H : String → NameKey) (st : State) (op : Op) (e : Err)
